@@ -69,6 +69,9 @@ PRELUDE = [
                                           ['num', '2']]]]],
     ['routine', 'f2', ['p', 'q'], [['return', ['bin', '-', ['var', 'p'],
                                                ['var', 'q']]]]],
+    # a macro defined AFTER the routines, named like one of their parameters:
+    # inside f2 the name still means the parameter
+    ['define', 'q', ['num', '40']],
 ]
 
 
@@ -424,11 +427,36 @@ def lit(x):
     return ['num', text]
 
 
+def builtin_parameter_names():
+    """The names the built-ins declare for their own parameters."""
+    import bardolph.runtime.bardolph_math as bmath
+    from bardolph.runtime import bardolph_fn
+    names = set()
+    for obj in vars(bmath).values():
+        fn = getattr(obj, '__wrapped__', None)
+        if fn is not None and bardolph_fn.is_builtin(fn):
+            names.update(bardolph_fn.params(fn))
+    return sorted(names)
+
+
 def run_builtins(acc):
     from verif.harness import World
     world = World(POP)
+    # second pass: the script has macros and variables named like the
+    # built-ins' own parameters; a call's arguments still are what counts
+    collide = builtin_parameter_names()
+    if len(collide) < 2:
+        raise env.HarnessError('built-in parameter names not found')
+    environments = [('plain', []),
+                    ('macros', ['define {} 9'.format(n) for n in collide]),
+                    ('variables', ['assign {} 9'.format(n) for n in collide])]
+    for env_name, header in environments:
+        _run_builtins_in(acc, world, env_name, header)
+
+
+def _run_builtins_in(acc, world, env_name, header):
     for name in sorted(FUNCTIONS):
-        lines, wanted = [], []
+        lines, wanted = list(header), []
         for x in GRID:
             want = builtin_expected(name, x)
             if want is None:
@@ -442,8 +470,8 @@ def run_builtins(acc):
         outs = [e[1] for e in result.trace if e[0] == 'out']
         case = {'kind': 'builtin', 'name': name}
         if not result.compiled or result.aborted or len(outs) != len(wanted):
-            acc.fail('builtin-run:' + name, '{}: {} {}'.format(
-                name, result.errors, result.aborted), case)
+            acc.fail('builtin-run:' + name, '{} ({}): {} {}'.format(
+                name, env_name, result.errors, result.aborted), case)
             acc.case(key='builtin:' + name, labels=('builtin:' + name,))
             continue
         for (x, want, text), got in zip(wanted, outs):
@@ -451,14 +479,17 @@ def run_builtins(acc):
                 max(1.0, abs(want))
             if name in ('floor', 'ceil', 'trunc', 'round'):
                 ok = ok and float(got).is_integer()
-            acc.case(key='builtin:{}:{}'.format(name, x), nontrivial=True,
-                     labels=('builtin:' + name,),
+            acc.case(key='builtin:{}:{}:{}'.format(name, x, env_name),
+                     nontrivial=True,
+                     labels=('builtin:' + name, 'builtins-among-' + env_name),
                      sample={'call': text, 'expected': want, 'got': got}
                      if x == 1.5 else None)
             if not ok:
                 acc.fail('builtin:' + name,
-                         '{} returned {!r}, documented result {!r}'.format(
-                             text, got, want), case)
+                         '{} returned {!r}, documented result {!r} ({})'
+                         .format(text, got, want,
+                                 ' '.join(header) or 'no other definitions'),
+                         case)
 
 
 def run_random(acc, seed_value, ranges):
